@@ -468,6 +468,32 @@ impl<T1, T2, T3>''')]),
         drop(_r2);
         drop(_w2);
         let cache_names = self''')]),
+ ("c18_globalcache_clear_two_sections", ["C18"], [(G, '''        let mut o = self.order.lock();
+        self.map.write().clear();
+        o.clear();''', '''        self.map.write().clear();
+        self.order.lock().clear();''')]),
+ ("c18_global_insert_order_before_map", ["C18"], [(G, '''        // Acquire write lock for modification
+        self.map.write().insert(key_s.clone(), entry);
+
+        let mut o = self.order.lock();
+        if let Some(pos) = o.iter().position(|k| *k == key_s) {
+            o.remove(pos);
+        }
+        o.push_back(key_s.clone());
+
+        // Always handle entry-count limits, regardless of memory limits
+        self.handle_entry_limit_eviction(&mut o);''', '''        {
+            let mut o = self.order.lock();
+            if let Some(pos) = o.iter().position(|k| *k == key_s) {
+                o.remove(pos);
+            }
+            o.push_back(key_s.clone());
+
+            // Always handle entry-count limits, regardless of memory limits
+            self.handle_entry_limit_eviction(&mut o);
+        }
+        // Acquire write lock for modification
+        self.map.write().insert(key_s.clone(), entry);''')]),
  ("c17_sync_callback_lock_order_inverted", ["C17"], [(MS, '''                        let mut order_write = #order_ident.lock();
                         let mut map_write = #cache_ident.write();
 ''', '''                        let mut map_write = #cache_ident.write();
